@@ -180,6 +180,19 @@ example :
 example : bgvNew exactOracle 100000 { logN := 6, q := [786433], p := [], ringType := 0 } 17
     = .ok { nT := 8, qMul := [2305843009213689601] } := by decide +kernel
 
+/-- a plaintext modulus equal to a LATER prime of the chain (`t = Q[1] = 65537`) is rejected like `t = Q[0]`
+    (`bgv_accepted` gives `t ∉ Q` for every accepted `t`; this is the concrete instance) -/
+example : bgvNew exactOracle 100000
+    { logN := 6, q := [35184372088961, 65537, 1073741441], p := [], ringType := 0 } 65537 = .err "tInQ" := by
+  decide +kernel
+
+/-- `rlwe.NewParameters` called directly refuses a ring degree outside `[MinLogN, MaxLogN]` before anything else
+    (any oracle, any moduli): `decision_table` in the two out-of-range instances -/
+example (o : Oracle) (q p : List Nat) (rt : Nat) (w s : Bool) :
+    newParameters o 3 q p rt w s = .err "logNmin" ∧ newParameters o 21 q p rt w s = .err "logNmax" ∧
+    newParameters o (-1) q p rt w s = .err "logNmin" := by
+  refine ⟨?_, ?_, ?_⟩ <;> simp [newParameters, checkSizeParams, MaxLogN, MinLogN]
+
 /-! ## genModuli_spec -/
 
 /-- **genModuli_spec** (full strength) — if `GenModuli(L, logQ, logP)` returns `(q, p)` then, provided
